@@ -55,7 +55,7 @@ func newCluster(nn int, formed bool, rng *rand.Rand) *cluster {
 	for i := 0; i < nn; i++ {
 		nd, err := quiet.NewNode(c.net, c.names[i], nil, func(cf *serf.Config) {
 			cf.ValidateNodeNames = false
-			cf.BroadcastTimeout = 20 * time.Second // Serf.Leave stays blocked until the harness hands its broadcast out
+			cf.BroadcastTimeout = 3 * time.Second // Serf.Leave stays blocked until the harness hands its broadcast out (or 3 s pass)
 		})
 		if err != nil {
 			h.Die("create: %v", err)
@@ -341,7 +341,7 @@ func (c *cluster) step(st h.Step) (h.Step, map[string]interface{}) {
 		n := st.Int("n")
 		nd, err := quiet.NewNode(c.net, c.names[n], c.net.Reuse(c.nodes[n].Tr), func(cf *serf.Config) {
 			cf.ValidateNodeNames = false
-			cf.BroadcastTimeout = 20 * time.Second
+			cf.BroadcastTimeout = 3 * time.Second
 		})
 		if err != nil {
 			h.Die("restart: %v", err)
